@@ -198,10 +198,12 @@ def run_impl(lines, chunk=500):
     if not lines:
         return []
     chunks = [lines[i:i + chunk] for i in range(0, len(lines), chunk)]
-    res, left = _run_chunks(chunks, STALL)
+    # once a hang has been pinned down in this check, later calls do not spend minutes on further ones
+    later = len(hang_log) > 0
+    res, left = _run_chunks(chunks, 25 if later else STALL)
     if left:
         n_stuck = len(stuck_histories)
-        deadline = time.time() + HANG_BUDGET
+        deadline = time.time() + (20 if later else HANG_BUDGET)
         # chunks that were merely queued behind the hung ones finish at once; the others are bisected
         res2, left2 = _run_chunks([chunks[i] for i in left], min(STALL, 60))
         for j, i in enumerate(left):
